@@ -235,7 +235,7 @@ struct Built {
 
 fn path_case(ctx: &mut Ctx, r: &mut Rng, long: bool, for_sim: bool) -> Option<Built> {
     let o = NetOpts {
-        n_links: r.usize(1, if long { 6 } else { 4 }),
+        n_links: if for_sim { r.usize(2, 7) } else { r.usize(1, if long { 6 } else { 4 }) },
         grid: if for_sim { 1.0 } else { *r.pick(&[0.5, 1.0, 8.0]) },
         len_lo: if for_sim { 700 } else { 4 },
         len_hi: if for_sim { 3500 } else { *r.pick(&[64, 2000, 20000]) },
@@ -727,17 +727,35 @@ fn speed_limit_case(ctx: &mut Ctx, r: &mut Rng, max_steps: usize) {
     let mode = r.below(3);
     let whole = mode == 0;
     let mut pending: Vec<LinkIdx> = vec![];
+    // the first authority covers the standing train (front at `len`), as a dispatcher's first timed-path chunk does;
+    // in one case out of five it is a single link even if that is shorter than the train (extend_path must then fail
+    // with an error, not abort)
+    let mut k0 = 1usize;
+    if !r.chance(0.2) {
+        let mut cum = 0.0;
+        k0 = 0;
+        for li in &bu.route {
+            cum += bu.net[li.idx()].length.value;
+            k0 += 1;
+            if cum >= len + 1.0 { break; }
+        }
+    }
     let okx = guard(|| -> anyhow::Result<()> {
         match mode {
             0 => sim.extend_path(&bu.net, &bu.route)?,
-            1 => { for li in &bu.route { sim.extend_path(&bu.net, &[*li])?; } }
-            _ => { sim.extend_path(&bu.net, &bu.route[..1])?; pending = bu.route[1..].to_vec(); }
+            1 => { sim.extend_path(&bu.net, &bu.route[..k0])?; for li in &bu.route[k0..] { sim.extend_path(&bu.net, &[*li])?; } }
+            _ => { sim.extend_path(&bu.net, &bu.route[..k0])?; pending = bu.route[k0..].to_vec(); }
         }
         Ok(())
     });
+    ctx.checked("C03", "no_panic");
+    if okx.is_none() {
+        ctx.fail("C03", "no_panic", "extend_path", format!("extend_path panicked: {}", last_panic()), json!({"kind": "speed_limit_extend", "route": bu.route.iter().map(|l| l.idx()).collect::<Vec<_>>(), "first_chunk": k0, "mode": mode, "train_length": len}));
+    }
     if !matches!(okx, Some(Ok(()))) {
         ctx.count("train.sl.extend_failed");
-        if let Some(Err(e)) = &okx { ctx.sample("train.sl.extend_failed", json!(format!("{:?}", e).lines().take(4).collect::<Vec<_>>().join(" | ").chars().take(400).collect::<String>())); }
+        ctx.count(&format!("train.sl.extend_failed.mode{}", mode));
+        if let Some(Err(e)) = &okx { ctx.sample("train.sl.extend_failed", json!(format!("mode {} first chunk {} links, train {} m: {:?}", mode, k0, len, e).lines().take(12).collect::<Vec<_>>().join(" | ").chars().take(400).collect::<String>())); }
         return;
     }
     ctx.count(&format!("train.sl.extend_mode.{}", mode));
@@ -975,7 +993,7 @@ fn locate_case(ctx: &mut Ctx, r: &mut Rng) {
 }
 
 pub fn run(ctx: &mut Ctx, r: &mut Rng, tier: &str) {
-    let (np, nbad, nss, nsl, nidx, steps, slsteps) = if tier == "thorough" { (400, 200, 60, 60, 4000, 400, 3000) } else { (40, 20, 6, 8, 400, 150, 1200) };
+    let (np, nbad, nss, nsl, nidx, steps, slsteps) = if tier == "thorough" { (400, 200, 60, 60, 4000, 400, 3000) } else { (40, 20, 6, 12, 400, 150, 900) };
     for i in 0..np { let mut rr = r.fork(); let _ = path_case(ctx, &mut rr, i % 2 == 0, false); }
     for _ in 0..nbad { let mut rr = r.fork(); bad_route_case(ctx, &mut rr); }
     for _ in 0..nidx { let mut rr = r.fork(); calc_idx_case(ctx, &mut rr); }
